@@ -352,7 +352,7 @@ def replay(o):
     from ..runner import native
 
     cfg = (o.get("info") or {}).get("replay_payload") or {}
-    section = "value_update" if "value_update" in cfg else ("periodic_specs" if "periodic_spec" in cfg else None)
+    section = "value_update" if "value_update" in cfg else ("periodic_specs" if "periodic_spec" in cfg else ("precedence" if "precedence_keys" in cfg else None))
     if section is None:
         return {"reproduced": None, "note": "no native replay recipe for this obligation"}
     res = native("boundaries.py", {"seed": 1, "sections": [section]}, timeout=1200)
@@ -381,7 +381,7 @@ ASSUMPTIONS = ["finite Robin coefficient with 2 + dx*gamma != 0 (gamma = infinit
 NOT_COVERED = [
     "UserBC, value_is_linked (value read through a memory address), gamma = infinity: bounded native check only",
     "the sympy meaning of expression texts (C11): only the arithmetic templates around the user text are proved",
-    "BC specification parsing (wildcards, named sides, aliases, periodicity checks): bounded native check only",
+    "BC specification parsing: the per-side precedence of the dictionary format (named boundary > one-sided key > axis key > '*') and the ways of writing periodic axes are proved; aliases of axis names, the legacy list format and the strings / single conditions applied to all axes: bounded native check only",
     "rank-2 fields and 3-axis grids on the interpreted route (the slicing code is rank/axis generic; the compiled route is proved for 1-3 axes)",
 ]
 
@@ -702,3 +702,62 @@ def value_update_unit(clsname, route):
 
 
 UNITS += [(f"{c}.parameters_changed_between_two_uses[{r}]", value_update_unit(c, r)) for c in ("DirichletBC", "NeumannBC", "MixedBC", "CurvatureBC") for r in ("interpreted", "compiled")]
+
+
+# ------------------------------------------------------------------ (P) per-side precedence of the dictionary format
+AXES_MOD = "pde.grids.boundaries.axes"
+PARSE_KEYS = ["*", "x", "x-", "x+", "y", "y-", "y+", "left"]
+
+
+def parse_from_dict_unit(U):
+    """the real BoundariesList._parse_from_dict on a 2-axis grid with axes x, y and the named boundary 'left' = x-:
+    for every one of the 2^8 sets of keys the condition handed to get_boundary_axis for a side is the most specific
+    one given -- named boundary, then one-sided key, then axis key, then '*' -- and the caller's dictionary is left
+    as it was.  Values are opaque objects; get_boundary_axis is a recording stub (its contract: the units above)."""
+    import itertools
+
+    def body_for(present):
+        def body(it):
+            it.overrides["config"] = {"boundaries.accept_lists": True}  # the default of the package
+            coords = Instance(None, {"_axes_alt_repl": {}}, name="coordinates")
+            grid = Instance(None, {"num_axes": 2, "axes": ["x", "y"], "c": coords, "boundary_names": {"left": (0, False)}, "periodic": [False, False]}, name="grid")
+            values = {k: Instance(None, {}, name=f"condition_for[{k}]") for k in present}
+            data = dict(values)
+            calls = []
+
+            def gba(grid_, i, spec, rank=0):
+                calls.append((i, spec, rank))
+                return ("axis", i)
+
+            it.stub_names["get_boundary_axis"] = gba
+            cls = it.module_attr(it.load_module(AXES_MOD), "BoundariesList")
+            fn = it.get_function(AXES_MOD, "BoundariesList._parse_from_dict")
+            r = it.call(fn, [cls, data], {"grid": grid, "rank": 1})
+            return r, calls, data, values
+        return body
+
+    n = 0
+    for mask in itertools.product((False, True), repeat=len(PARSE_KEYS)):
+        present = [k for k, m in zip(PARSE_KEYS, mask) if m]
+        tag = ",".join(present) or "none"
+        results = list(explore_paths(U, body_for(present)))
+        if len(results) != 1 or results[0].outcome != "return":
+            U.prove(f"keys[{tag}].returns_normally_on_one_path", [], z3.BoolVal(False), info={"outcomes": [r.outcome for r in results], "exc": str(results[0].exc) if results else ""})
+            continue
+        n += 1
+        r, calls, data, values = results[0].value
+        ok_shape = len(calls) == 2 and [c[0] for c in calls] == [0, 1] and all(c[2] == 1 for c in calls) and all(isinstance(c[1], tuple) and len(c[1]) == 2 for c in calls)
+        good = ok_shape
+        if ok_shape:
+            for ax, name in enumerate(("x", "y")):
+                for side, suffix in enumerate("-+"):
+                    order = (["left"] if (ax, side) == (0, 0) else []) + [name + suffix, name, "*"]
+                    want = next((values[k] for k in order if k in values), None)
+                    good = good and calls[ax][1][side] is want
+        U.prove(f"keys[{tag}].every_side_gets_the_most_specific_condition_given", [], z3.BoolVal(good),
+                info={"replay_payload": {"precedence_keys": present}, "handed_on": repr([c[1] for c in calls])[:300]})
+        U.prove(f"keys[{tag}].caller's_dictionary_unchanged", [], z3.BoolVal(set(data) == set(values) and all(data[k] is values[k] for k in values)))
+    U.prove("all_key_sets_explored", [], z3.BoolVal(n == 2 ** len(PARSE_KEYS)))
+
+
+UNITS += [("BoundariesList._parse_from_dict.precedence", parse_from_dict_unit)]
